@@ -81,8 +81,8 @@ func genC29(r *simrt.Rand, tier string) any {
 			lat = 4
 		}
 		if r.Chance(50) {
-			// the scheduled execution starts up to one duration before ... a
-			// little after the first manual one
+			// the first manual execution is issued from one duration before the
+			// scheduler's tick to a quarter of a duration after it
 			p.Ops = append(p.Ops, Op{Kind: "tick", Ms: r.Int63n(lat+lat/4+1) - lat})
 		}
 		for k := 3 + r.Intn(3); k > 0; k-- {
@@ -264,6 +264,8 @@ type c29exec struct {
 	harnessErr string
 	// most manual (non-dry) execute requests that were outstanding at once
 	maxInflight int
+	// executions held for the run's aggregation latency (logCapture)
+	latencyApplied int
 }
 
 func parseTS(s string) (time.Time, bool) {
@@ -535,6 +537,7 @@ func execC29(p *C29Plan, cfg simrt.Config, root string) *c29exec {
 		}
 		ex.failedDst, ex.failedSrc = n.fb.FailedDst, n.fb.FailedSrc
 		ex.traces = n.logs.tr
+		ex.latencyApplied = n.logs.latencyApplied
 	})
 	if n != nil {
 		if n.up && n.cqh != nil {
@@ -599,6 +602,13 @@ func runC29(planAny any, cfg simrt.Config) *simkit.Outcome {
 	}
 	if ex.readErr != nil {
 		harnessFatal("C29: destination not readable: %v", ex.readErr)
+	}
+	// the aggregation latency is applied where the handler logs that it is
+	// about to execute; every execution in the history passed that point. Fewer
+	// applications than history rows means the log line is no longer recognised
+	// and the run's executions silently took no time.
+	if p.Knobs.ExecLatencyMs > 0 && ex.latencyApplied < len(ex.execs) {
+		harnessFatal("C29: %d executions recorded but the aggregation latency was applied %d times (handler log line not recognised?)", len(ex.execs), ex.latencyApplied)
 	}
 
 	// which manual executions named their own start?
@@ -688,10 +698,16 @@ func runC29(planAny any, cfg simrt.Config) *simkit.Outcome {
 					}
 				}
 			}
-			cause := func(explicitMoved bool) string {
+			// (names the circumstance only; whether there is a violation is
+			// decided below from the recorded windows alone)
+			cause := func(explicitMoved, gap bool) string {
 				switch {
 				case !serial && startedAtFailedEnd(s):
 					return "after-failed-execution"
+				case gap && explicitMoved:
+					// a hole that an operator's explicit range left behind stays
+					// that hole however the executions after it were interleaved
+					return "after-manual-execution-with-explicit-range"
 				case !serial && inFlight:
 					return "concurrent-executions"
 				case !serial:
@@ -700,6 +716,10 @@ func runC29(planAny any, cfg simrt.Config) *simkit.Outcome {
 					return "after-manual-execution-with-explicit-range"
 				case concurrentSeen:
 					return "after-concurrent-executions"
+				case !prev.Explicit && prev.End.Unix() < frontier:
+					// it continued where the latest commit ended, but that commit
+					// ended before an earlier one: commits not in window order
+					return "after-execution-that-ended-before-an-earlier-one"
 				}
 				return "other"
 			}
@@ -708,7 +728,7 @@ func runC29(planAny any, cfg simrt.Config) *simkit.Outcome {
 				if lo >= hi {
 					continue
 				}
-				c := cause(rewound)
+				c := cause(rewound, false)
 				if c == "concurrent-executions" {
 					concurrentSeen = true
 				}
@@ -717,7 +737,7 @@ func runC29(planAny any, cfg simrt.Config) *simkit.Outcome {
 				break
 			}
 			if at, gap := uncovered(spans, done[0].Start.Unix(), s); gap {
-				c := cause(skipped)
+				c := cause(skipped, true)
 				if c == "concurrent-executions" {
 					concurrentSeen = true
 				}
@@ -859,6 +879,7 @@ func runC29(planAny any, cfg simrt.Config) *simkit.Outcome {
 	out.Stats["probe.output_rows"] += int64(len(ex.dstRows))
 	out.Stats["probe.crashes"] += int64(ex.crashes)
 	out.Stats["probe.restarts"] += int64(ex.restarts)
+	out.Stats["probe.executions_held_for_aggregation_latency"] += int64(ex.latencyApplied)
 	if ex.maxInflight >= 3 {
 		out.Stats["probe.runs_with_3plus_manual_executions_outstanding"]++
 	}
